@@ -54,6 +54,12 @@ CaseR64P(n) ==
            exp |-> [enc |-> w, dec |-> b, crc |-> CRC24Octets(b), crcline |-> ChecksumLine(b),
                     armor |-> a, dt |-> ArmorTypeOf(n), dd |-> b]]
 
+(* r64r (thorough): pseudo-random octet strings of length 3..64, derived from Seed and the index with the     *)
+(* Lehmer generator x' = 75 x mod 65537 (all numbers stay below 2^31)                                          *)
+RECURSIVE Lehmer(_, _)
+Lehmer(x, n) == IF n = 0 THEN <<>> ELSE <<x % 256>> \o Lehmer((x * 75) % 65537, n - 1)
+RandStr(k) == Lehmer(1 + ((k * 7919 + Seed * 104729) % 65536), 3 + (k % 62))
+
 (* armorbad: armor blocks built from the structure of 6.2 with one element varied; the verdict is the one *)
 (* the property demands: a checksum line that is present must be "=" and the four radix-64 characters of  *)
 (* the CRC of the data; a block with a BEGIN line inside, without the blank separator line or without the *)
@@ -113,6 +119,13 @@ ThmLen(k) == LET p == LenOf(k)  e == LenNewP(p)  d == LenNewDecode(e \o <<7, 7>>
   /\ (p[1] = 0 /\ p[2] < 192) <=> Len(e) = 1
   /\ (p[1] = 0 /\ p[2] >= 192 /\ p[2] < 8384) <=> Len(e) = 2
   /\ (k > 0 /\ k <= LenExh) => LenNewP(LenOf(k - 1)) # e                    \* injective along the chain
+
+(* lenx, mpix (thorough): the exhaustive ranges continued up to 70000 *)
+CaseLenX(k) == LET p == <<0, LenExh + 1 + k>>  e == LenNewP(p) IN
+  [op |-> "len", i |-> i, in |-> [n |-> p, os |-> e \o <<7, 7>>],
+   exp |-> [enc |-> e, dec |-> DecRec(LenNewDecode(e \o <<7, 7>>))]]
+ThmLenX(k) == LET p == <<0, LenExh + 1 + k>>  e == LenNewP(p)  d == LenNewDecode(e \o <<7, 7>>) IN
+  d.hl = 5 /\ d.len = p /\ ~d.part /\ Len(e) = 5
 
 (* lendec: the decoder on every first octet, with four different continuations and for new and old format *)
 Conts == << <<0, 0, 0, 0>>, <<255, 255, 255, 255>>, <<1, 2, 3, 4>>, <<>>, <<200>>, <<128, 0, 0>> >>
@@ -195,6 +208,11 @@ ThmMpi(k) == LET v == MpiValue(k)  e == MPI(v)  d == MPIDecode(e \o <<5, 6>>) IN
   /\ (Len(e) > 2 => e[3] # 0)
   /\ (k <= MpiExh /\ k > 0) => (2 ^ (MPIBits(v) - 1) <= k /\ k < 2 ^ MPIBits(v))
   /\ (k = 0) => e = <<0, 0>>
+CaseMpiX(k) == LET n == 1101 + k  v == Rep(0, n % 2) \o MinBE(n)  e == MPI(v) IN
+  [op |-> "mpi", i |-> i, in |-> [v |-> v, os |-> e \o <<5, 6>>],
+   exp |-> [enc |-> e, used |-> MPIDecode(e \o <<5, 6>>).used, val |-> MPIDecode(e \o <<5, 6>>).val, sum |-> SumOctets(e)]]
+ThmMpiX(k) == LET n == 1101 + k  v == MinBE(n)  e == MPI(v) IN
+  MPIDecode(e).val = v /\ MPIDecode(e).used = Len(e) /\ 2 ^ (MPIBits(v) - 1) <= n /\ n < 2 ^ MPIBits(v) /\ Val(v) = n
 BitCounts == <<0, 1, 7, 8, 9, 15, 16, 17, 63, 64, 65, 255, 256, 257, 1023, 1024, 2048>>
 CaseMpiDec(k) ==
   LET bits == At(BitCounts, k)
@@ -251,8 +269,17 @@ CasePub(k, sub, v5) ==
                         mpis |-> [j \in 1..Len(m.mpis) |-> StripZ(m.mpis[j])], oid |-> m.oid, kdf |-> m.kdf]]]
 SubTypes == <<2, 9, 11, 16, 21, 27, 30, 33, 20, 100>>
 SubLens == <<0, 1, 4, 8, 190, 191, 192, 300>>
+CaseSec(k, sub) ==
+  LET algo == IF k % 2 = 0 THEN 17 ELSE 16
+      m == PubMaterial(algo, k)
+      x == Mp(k + 3, 9)
+      tag == IF sub THEN 7 ELSE 5
+      os == Packet(tag, BodyPubV4(Time0, algo, m.octets) \o SecretClear(<<x>>))
+  IN [op |-> "sec", i |-> i, in |-> [sub |-> sub, time |-> Time0, algo |-> algo, mpis |-> m.mpis, x |-> x, os |-> os],
+      exp |-> [enc |-> os, dec |-> [ret |-> tag, v |-> 4, time |-> Time0, algo |-> algo, s2kconv |-> 0,
+                                    mpis |-> [j \in 1..Len(m.mpis) |-> StripZ(m.mpis[j])], x |-> StripZ(x)]]]
 PktKinds == << "uid", "lit", "sed", "seipd", "mdc", "aead", "pkeskrsa", "pkeskelg", "pkeskecdh", "sig2", "sig1", "subpkt",
-               "pub", "pubv5", "sub", "subv5" >>
+               "pub", "pubv5", "sub", "subv5", "sec", "ssb" >>
 CasePkt(k) ==
   LET kind == At(PktKinds, k)
       r == k \div Len(PktKinds)
@@ -298,6 +325,8 @@ CasePkt(k) ==
        [] kind = "pubv5" -> CasePub(r, FALSE, TRUE)
        [] kind = "sub" -> CasePub(r, TRUE, FALSE)
        [] kind = "subv5" -> CasePub(r, TRUE, TRUE)
+       [] kind = "sec" -> CaseSec(r, FALSE)
+       [] kind = "ssb" -> CaseSec(r, TRUE)
 (* every emitted packet is tag octet, canonical length, body; and can be cut again at exactly that point *)
 ThmPkt(k) ==
   LET c == CasePkt(k)
@@ -352,6 +381,9 @@ Case == CASE Family = "r64b" -> CaseR64(B2(i))
           [] Family = "s2kcount" -> CaseS2K(i)
           [] Family = "pkt" -> CasePkt(i)
           [] Family = "sigdec" -> CaseSigDec(i)
+          [] Family = "r64r" -> CaseR64(RandStr(i))
+          [] Family = "lenx" -> CaseLenX(i)
+          [] Family = "mpix" -> CaseMpiX(i)
 Thm == CASE Family = "r64b" -> ThmR64(B2(i))
          [] Family = "r64p" -> ThmR64(Pat(i, Seed))
          [] Family = "armorbad" -> TRUE
@@ -365,6 +397,9 @@ Thm == CASE Family = "r64b" -> ThmR64(B2(i))
          [] Family = "s2kcount" -> ThmS2K(i)
          [] Family = "pkt" -> ThmPkt(i)
          [] Family = "sigdec" -> ThmSigDec(i)
+         [] Family = "r64r" -> ThmR64(RandStr(i))
+         [] Family = "lenx" -> ThmLenX(i)
+         [] Family = "mpix" -> ThmMpiX(i)
 (* number of cases of a family (Hi in the cfg files is computed from these by checks/c19.py: TLC evaluates them) *)
 FamilySize == [r64b |-> 65793, armorbad |-> NArmorBad, len |-> NLen + 1, lendec |-> NLenDec, tagenc |-> 64,
                extract |-> NBodyExtract, partial |-> NPartial, mpi |-> NMpi, mpidec |-> NMpiDec, s2kcount |-> 256,
